@@ -24,6 +24,10 @@ pub const LIMIT_US: u64 = 1_000_000;
 #[derive(Serialize, Deserialize, Clone, Debug, PartialEq, Eq)]
 pub struct Baseline {
     pub answers: Vec<String>,
+    /// the same answers with a repeated query variable listed once (an equally faithful rendering
+    /// that solve/solve_all may use)
+    #[serde(default)]
+    pub answers_alt: Vec<String>,
     /// output printed while searching for answer i
     pub outs: Vec<String>,
     /// output printed by the search that ended with None (present iff `complete`)
@@ -596,9 +600,30 @@ fn panic_message(p: &Box<dyn std::any::Any + Send>) -> String {
     }
 }
 
-fn format_answer(goal: &Goal, ss: &Rc<SubstitutionSet>) -> String {
+/// The harness's own rendering of an answer, independent of the engine's format_solution (which
+/// solve/solve_all use, and which is therefore under test): for every argument of the query that
+/// is a variable, `name = value` with the value taken from the instantiated query term, joined by
+/// ", ". `dedup` lists a variable that occurs twice only at its first occurrence.
+fn reference_answer(goal: &Goal, ss: &Rc<SubstitutionSet>, dedup: bool) -> String {
     let result = goal.replace_variables(ss);
-    format_solution(goal, &result)
+    let mut parts: Vec<String> = vec![];
+    let mut seen: Vec<String> = vec![];
+    if let (Goal::ComplexGoal(Unifiable::SComplex(q)), Unifiable::SComplex(r)) = (goal, &result) {
+        for i in 1..q.len().min(r.len()) {
+            if let Unifiable::LogicVar { name, .. } = &q[i] {
+                if dedup && seen.contains(name) {
+                    continue;
+                }
+                seen.push(name.clone());
+                parts.push(format!("{} = {}", name, r[i]));
+            }
+        }
+    }
+    parts.join(", ")
+}
+
+fn format_answer(goal: &Goal, ss: &Rc<SubstitutionSet>) -> String {
+    reference_answer(goal, ss, false)
 }
 
 /// Builds and steps one query with next_solution only, probes in counting mode.
@@ -606,7 +631,7 @@ fn format_answer(goal: &Goal, ss: &Rc<SubstitutionSet>) -> String {
 /// false for the post-check (which is itself a judged observation).
 fn run_plain(q: &QuerySpec, kb: &KnowledgeBase, reset: bool, cap_answers: usize) -> Result<Baseline, String> {
     if q.class == QueryClass::Diverges {
-        return Ok(Baseline { answers: vec![], outs: vec![], final_out: None, complete: false, steps: 0 });
+        return Ok(Baseline { answers: vec![], answers_alt: vec![], outs: vec![], final_out: None, complete: false, steps: 0 });
     }
     SIM.with(|s| {
         let mut s = s.borrow_mut();
@@ -619,7 +644,7 @@ fn run_plain(q: &QuerySpec, kb: &KnowledgeBase, reset: bool, cap_answers: usize)
         }
         let goal = q.to_suiron();
         let sn = make_base_node(Rc::new(goal.clone()), kb);
-        let mut b = Baseline { answers: vec![], outs: vec![], final_out: None, complete: false, steps: 0 };
+        let mut b = Baseline { answers: vec![], answers_alt: vec![], outs: vec![], final_out: None, complete: false, steps: 0 };
         let cap = if q.class == QueryClass::Unbounded { cap_answers.min(16) } else { cap_answers };
         let _ = take_output();
         loop {
@@ -629,6 +654,7 @@ fn run_plain(q: &QuerySpec, kb: &KnowledgeBase, reset: bool, cap_answers: usize)
             match next_solution(Rc::clone(&sn)) {
                 Some(ss) => {
                     b.answers.push(format_answer(&goal, &ss));
+                    b.answers_alt.push(reference_answer(&goal, &ss, true));
                     b.outs.push(take_output());
                 }
                 None => {
@@ -1039,7 +1065,7 @@ fn run_body(scn: &Scenario, opts: ExecOpts, baselines: &Result<Vec<Vec<Baseline>
                 Ok(b) => post.push(b),
                 Err(why) => {
                     // reported through an empty, incomplete record
-                    post.push(Baseline { answers: vec![format!("<<{}>>", why)], outs: vec![], final_out: None, complete: false, steps: 0 });
+                    post.push(Baseline { answers: vec![format!("<<{}>>", why)], answers_alt: vec![], outs: vec![], final_out: None, complete: false, steps: 0 });
                 }
             }
         }
